@@ -2,6 +2,7 @@ import Pm.FrameDev
 /-! Helper lemmas for C05, daemon level: `devPass`/`daemonPass` of `Pm/Daemon.lean` restated in pieces, the frame of
     `applyOuts`, and the single-run frame of one device's step inside the pass. -/
 namespace Pm.Daemon
+open Pm Pm.Client
 open Pm.Dev2 (Out Oracle CS Env Dev Action Store outCid cell)
 
 /-! ### restatement of `devPass` -/
